@@ -1,1 +1,14 @@
-fn main() {}
+//! Monitors for radicle-cli: C30 (unified diff text round trip).
+mod c30;
+
+fn main() {
+    vcommon::install_panic_hook();
+    let args = vcommon::Args::parse();
+    match args.prop.as_str() {
+        "C30" => c30::run(&args),
+        p => {
+            eprintln!("h-cli: unknown property {p}");
+            std::process::exit(2);
+        }
+    }
+}
